@@ -161,6 +161,12 @@ def main_for(prop, run: core.Run, rule_extra: str, require=(), only=None):
                   for mth, how in ((("nearsquare", "lower"), ("rectangle", "capital")) if run.tier == "quick" else
                                    [(mth, how) for mth in ("nearsquare", "rectangle", "birectangle", "bizoned") for how in ("upper", "lower", "capital", "mixed")])]
         run.drive(fcases, family="F", init_args=(prop, "B"), chunksize=1)
+    if prop == "C02" and (not only or "S" in only):
+        # sizing one real exchanger whose long-time table reaches beyond the allowed height window, loads far too large / far too small:
+        # the height that comes back stays inside [min_height, max_height]
+        scases = [{"engine": "S", "method": "hybrid", "N": n, "scale": sc, "mirror": mir, "heights": hts} for n, mir in ((4, False), (1, True))
+                  for sc in (0.002, 3.0) for hts in ([48.0, 96.0, 192.0], [30.0, 60.0, 135.0, 270.0])]
+        run.drive(scases, family="S", init_args=(prop, "B"), chunksize=1)
     if prop == "C05" and (not only or "S" in only):
         # sizing one real exchanger with the hourly and with the hybrid time step: the height is a root of the excess of THAT method
         scases = [{"engine": "S", "method": mth, "N": n, "scale": sc, "mirror": mir} for mth in ("hourly", "hybrid")
